@@ -41,15 +41,40 @@ def clause_a(facts, rep, tag):
         for f in pick(facts, short, tag):
             rep.fn(f)
 
+            # which accessor calls a local's value comes from (through its initialiser, transitively): `old_cap` is the
+            # capacity and `count` the size whatever they are called
+            prov = {}
+            for _ in range(3):
+                for bid_, i_, s_ in f.stmts():
+                    s0_ = strip(s_)
+                    if isinstance(s0_, dict) and s0_.get('k') == 'decl':
+                        for vd in s0_['vars']:
+                            if vd.get('init') is not None:
+                                cs = set(x.get('cname') for x in walk(vd['init']) if x.get('k') == 'call')
+                                for x in walk(vd['init']):
+                                    if x.get('k') == 'ref' and x.get('id') in prov:
+                                        cs |= prov[x['id']]
+                                prov[vd['id']] = prov.get(vd['id'], set()) | cs
+
             def gen_edge(b, cond, sense):
                 c = strip_expect(cond)
-                if c is not None and c.get('k') == 'bin' and c['op'] in ('>=', '<'):
-                    calls = [x.get('cname') for x in walk(c) if x.get('k') == 'call']
-                    names = [x.get('name') for x in walk(c) if x.get('k') == 'ref']
-                    about_cap = 'Capacity' in calls or 'cap' in names
-                    about_size = 'Size' in calls or 'count' in names
-                    if about_cap and about_size:
-                        room = (c['op'] == '>=' and not sense) or (c['op'] == '<' and sense)
+                if c is not None and c.get('k') == 'bin' and c['op'] in ('>=', '<', '>', '<=', '==', '!='):
+                    def side(e_):
+                        cs = set(x.get('cname') for x in walk(e_) if x.get('k') == 'call')
+                        for x in walk(e_):
+                            if x.get('k') == 'ref' and x.get('id') in prov:
+                                cs |= prov[x['id']]
+                        return cs
+                    L, R = side(c['l']), side(c['r'])
+                    capn, sizen = ('Capacity', 'capacityImpl'), ('Size',)
+                    op = c['op']
+                    if any(x in L for x in capn) and any(x in R for x in sizen) and not any(x in R for x in capn):
+                        # capacity OP size  ->  mirror
+                        op = {'>=': '<=', '<': '>', '>': '<', '<=': '>=', '==': '==', '!=': '!='}[op]
+                        L, R = R, L
+                    if any(x in L for x in sizen) and any(x in R for x in capn):
+                        # size OP capacity: room when size < capacity
+                        room = (op == '>=' and not sense) or (op == '<' and sense) or (op == '==' and not sense) or (op == '!=' and sense)
                         if room:
                             return ['room']
                 return []
@@ -74,38 +99,103 @@ def clause_a(facts, rep, tag):
                               'the store into slot Size() must be dominated by Capacity() > Size() or by a (re)allocation', facts.config)
             rep.require(k >= 1, 'C12.a: append store not found in %s' % f.name)
             n += k
-            # growth expression strictly increasing; default capacity positive
-            grow = None
+            # growth strictly increasing, first allocation positive: the function is evaluated (sv/minterp.py) on a full
+            # container of every capacity up to the (re)allocation call and the capacity it requests is read off -
+            # whatever the locals are called and however the expression is split
+            from ..minterp import Interp, Unsupported, UndefinedBehaviour
+
+            class _Stop(Exception):
+                def __init__(self, v):
+                    self.v = v
+
+            def requested(cap0):
+                def hook(e, args, env, members):
+                    nm = e.get('cname') or ''
+                    if nm.startswith('__builtin_expect'):
+                        return None
+                    if e.get('k') == 'ctor':
+                        return None
+                    if nm in ('Size', 'Capacity', 'capacityImpl'):
+                        return cap0
+                    if nm == 'containerRealloc' and len(args) >= 3:
+                        raise _Stop(args[2])
+                    if nm == 'containerMalloc' and len(args) >= 1:
+                        raise _Stop(args[0])
+                    if nm in ('IsArray', 'IsObject'):
+                        return 1
+                    if nm in ('children', 'getObjChildrenFirst', 'getArrChildrenFirst', 'meta'):
+                        return 0x1000 if cap0 else 0
+                    if e.get('k') == 'call':
+                        return 0          # anything else (the stores behind the capacity decision) is irrelevant to the requested capacity
+                    return None
+                it = Interp(f, facts, call_hook=hook, max_steps=4000)
+                env = {'__this__': 0}
+                for p_ in f.params:
+                    env[p_['id']] = 0
+                try:
+                    it.run(env, {'a.next.children': 0x1000 if cap0 else 0, 'o.next.children': 0x1000 if cap0 else 0})
+                except _Stop as st:
+                    return st.v
+                except Unsupported:
+                    return None           # went on past the capacity decision without requesting a block
+                return None
+            bad = []
             dflt = None
-            for bid, i, s, e in f.walk():
-                if e.get('k') == 'bin' and e['op'] == '+=' and strip(e['l']).get('name') == 'cap':
-                    rhs = e['r']
-                    vid = strip(e['l'])['id']
-                    grow = lambda cap, rhs=rhs, vid=vid: cap + eval_guard(rhs, {vid: cap})
-                if e.get('k') == 'cond':
-                    c = strip_expect(e['c'])
-                    if c.get('k') == 'ref' and c.get('name') == 'cap':
-                        vid = c['id']
-                        a = e['a']
-                        grow = lambda cap, a=a, vid=vid: eval_guard(a, {vid: cap})
-                        dflt = cval(e['b'])
-            for bid, i, s in f.stmts():
-                s_ = strip(s)
-                if s_.get('k') == 'decl':
-                    for v in s_['vars']:
-                        if v['name'].startswith('k_default') and cval(v.get('init')) is not None:
-                            dflt = cval(v['init'])
-            rep.require(grow is not None, 'C12.a: growth expression of %s not bound' % f.name)
-            if grow is not None:
-                bad = growth_ok(grow)
-                rep.check(not bad, 'E5.growth', f.qn, 'new capacity > old capacity for every capacity >= 1', f.loc, 'counter-examples (old, new): %s' % bad[:3], facts.config)
+            try:
+                dflt = requested(0)
+                for cap in list(range(1, 300)) + [1000, 4097, 2 ** 20 + 1]:
+                    new = requested(cap)
+                    if new is None or new <= cap:
+                        bad.append((cap, new))
+            except (Unsupported, UndefinedBehaviour) as ex:
+                raise AnalysisBroken('C12.a: growth of %s not evaluable: %s' % (f.name, ex))
+            rep.check(not bad, 'E5.growth', f.qn, 'requested capacity > old capacity for every full container of capacity >= 1', f.loc, 'counter-examples (old, requested): %s' % bad[:3], facts.config)
             rep.check(dflt is not None and dflt >= 1, 'E5.growth', f.qn, 'first allocation has capacity %s >= 1' % dflt, f.loc, '', facts.config)
     rep.require(n >= 3, 'C12.a: append stores found: %d' % n)
 
 
+_MAP_GETTERS = {}
+
+
+def _returns_map_field(facts, g, depth=0):
+    """g is an accessor of the lookup map: every value it returns is null or read from a field named `map`
+    (MetaNode.map, the anchor named by the property) - whatever the accessor itself is called"""
+    if g is None or depth > 2:
+        return False
+    key = (id(facts), g.id)
+    if key in _MAP_GETTERS:
+        return _MAP_GETTERS[key]
+    _MAP_GETTERS[key] = False
+    rets = [strip(s_).get('e') for _, _, s_ in g.stmts() if isinstance(strip(s_), dict) and strip(s_).get('k') == 'ret' and strip(s_).get('e') is not None]
+    ok = bool(rets) and len(g.params) == 0
+    seen_field = False
+    for r in rets:
+        if cval(r) == 0:
+            continue
+        if any(x.get('k') == 'member' and x.get('name') == 'map' for x in walk(r)):
+            seen_field = True
+            continue
+        if any(x.get('k') == 'call' and _returns_map_field(facts, facts.by_id.get(x.get('cid')), depth + 1) for x in walk(r)):
+            seen_field = True
+            continue
+        ok = False
+    _MAP_GETTERS[key] = ok and seen_field
+    return ok and seen_field
+
+
+_FACTS = [None]
+
+
 def is_map_expr(e):
-    return any(x.get('k') == 'call' and x.get('cname') in ('getMap', 'getMapUnsfe') for x in walk(e)) or \
-        any(x.get('k') == 'ref' and x.get('name') == 'map' for x in walk(e))
+    fx = _FACTS[0]
+    for x in walk(e):
+        if x.get('k') == 'call' and (x.get('cname') in ('getMap', 'getMapUnsfe') or (fx is not None and _returns_map_field(fx, fx.by_id.get(x.get('cid'))))):
+            return True
+        if x.get('k') == 'member' and x.get('name') == 'map':
+            return True
+        if x.get('k') == 'ref' and x.get('dk') == 'local' and 'multimap' in (x.get('t') or '').lower() or (x.get('k') == 'ref' and x.get('name') == 'map'):
+            return True
+    return False
 
 
 def map_edge(b, cond, sense):
@@ -128,6 +218,7 @@ def map_edge(b, cond, sense):
 
 def clause_b(facts, rep, tag):
     n = 0
+    _FACTS[0] = facts
     for f in pick(facts, 'addMemberImpl', tag):
         rep.fn(f)
 
@@ -527,6 +618,9 @@ def run(rep, tier):
         clause_model(get_facts('K1'), rep, tier)
     except AnalysisBroken as ex:
         rep.broken.append(str(ex))
+    # the shape-matching rules on the container code are decided together with the exploration of the same functions
+    for r_ in ('E2.map-pairing', 'E2.append-capacity', 'E2.fresh-map-null'):
+        rep.corroborate(r_, 'E6.containers')
     rep.trust('clang 14 front end', 'std::multimap emplace/erase semantics')
     rep.assumptions += [
         'decides capacity-before-store, strictly increasing growth, map maintenance pairing (incl. key ownership) and null map of fresh blocks, for both allocator kinds; the map comparator (min-length compare, tie on length) uses an unsigned memcmp-like three-way compare on every path',
